@@ -38,9 +38,9 @@ def run(ctx):
     sched = exes["h_c13.sched"]
     off = sym_offsets(sched)
     aux = ["--aux", off[0], "--aux2", off[1]]
-    ctx.fan(sched, "raw", 120000 if th else 2400, aux, timeout=3)
-    ctx.fan(sched, "writer", 40000 if th else 800, aux, timeout=3)
-    ctx.fan(sched, "sorter", 40000 if th else 800, aux, timeout=3)
+    ctx.fan(sched, "raw", 200000 if th else 6400, aux, timeout=3)
+    ctx.fan(sched, "writer", 60000 if th else 2400, aux, timeout=3)
+    ctx.fan(sched, "sorter", 60000 if th else 2400, aux, timeout=3)
     # native threads with delay injection: ASan build, and a TSan pass (reports there are C14's concern; here only results and hangs)
     native = not ctx.violations       # a deadlock already witnessed under the scheduler would only make real threads hang until their watchdog
     if not native:
@@ -59,7 +59,7 @@ def run(ctx):
              "result handlers, 1-2 dispatcher threads, job bodies with 0-3 extra scheduling points), pooled writer (12-70 entries in 1 KiB blocks, all configurations, optionally two writers sharing a pool from two threads), pooled "
              "multi-chunk sorter (iterate / sorter_write / destroy without iterating); plus native-thread runs with delay injection under ASan and TSan; distinct_nontrivial = distinct schedule traces (hash of the choice sequence)",
         evaluations=s.get("schedules", 0) + s.get("native.schedules", 0) + s.get("tsan.schedules", 0),
-        floors={"schedules": 3500, "schedules.raw": 2000, "schedules.writer": 600, "schedules.sorter": 600, "sched.context_switches": 100000, "sched.spurious_wakeups": 500,
+        floors={"schedules": 10000, "schedules.raw": 6000, "schedules.writer": 2000, "schedules.sorter": 2000, "sched.context_switches": 100000, "sched.spurious_wakeups": 500,
                 "raw.handlers.ordered": 500, "raw.handlers.unordered": 500, "raw.dispatchers.2": 200, "raw.zero_jobs": 20, "raw.pool_max.1": 100,
                 "sorter.mode.destroy-without-iterating": 100, "writer.two_writers_sharing_one_pool": 100, "schedules.policy.PCT": 1000, "native.schedules": 200, "tsan.schedules": 80},
         extra={"schedules_run": s.get("schedules", 0), "distinct_schedule_hashes": len(ctx.hashes), "scheduling_points": s.get("sched.points", 0), "context_switches": s.get("sched.context_switches", 0),
